@@ -157,21 +157,23 @@ static void run_graph(int n, uint64_t edges, const std::vector<int> &rels, const
   }
   static const uint16_t inits[] = {0xffff, 0x0001, 0x8421, 0x00f0, 0x0000};
   static const uint16_t asets[] = {0x0f0f, 0xff00, 0x1248};
-  for (uint16_t init : inits)
-    for (int start : starts)
-      for (int am = 0; am < (th ? 4 : 3); am++) {
-        // assumption placements: none, block 0 (when n>1: last block), blocks {0,last}
-        int mask = am == 0 ? 0 : am == 1 ? (1 << (n - 1)) : am == 2 ? 1 | (1 << (n - 1)) : 1;
-        for (uint16_t aset : asets) {
-          if (am == 0 && aset != asets[0]) continue;
-          for (unsigned delay : {0u, 1u, 3u})
-            for (unsigned desc : {0u, 1u, 2u}) {
+  // One iterator object per (delay, desc) is REUSED for every (init, start, assumption)
+  // run of this program: a run must not depend on what an earlier run left behind.
+  for (unsigned delay : {0u, 1u, 3u})
+    for (unsigned desc : {0u, 1u, 2u}) {
+      crab::fixpoint_parameters p;
+      p.get_widening_delay() = delay;
+      p.get_descending_iterations() = desc;
+      p.get_max_thresholds() = 0;
+      Iter it(ref, p, rels);
+      for (uint16_t init : inits)
+        for (int start : starts)
+          for (int am = 0; am < (th ? 4 : 3); am++) {
+            // assumption placements: none, last block, blocks {0,last}, block 0
+            int mask = am == 0 ? 0 : am == 1 ? (1 << (n - 1)) : am == 2 ? 1 | (1 << (n - 1)) : 1;
+            for (uint16_t aset : asets) {
+              if (am == 0 && aset != asets[0]) continue;
               Case c{n, edges, rels, init, start, mask, aset, delay, desc};
-              crab::fixpoint_parameters p;
-              p.get_widening_delay() = delay;
-              p.get_descending_iterations() = desc;
-              p.get_max_thresholds() = 0;
-              Iter it(ref, p, rels);
               std::string cs = spec + ":" + std::to_string(init) + ":" + std::to_string(start) + ":" + std::to_string(mask) + ":" +
                                std::to_string(aset) + ":" + std::to_string(delay) + ":" + std::to_string(desc);
               vp::set_case(cs);
@@ -198,18 +200,18 @@ static void run_graph(int n, uint64_t edges, const std::vector<int> &rels, const
                 if (gp != kpre[b] || gq != kpost[b]) {
                   const char *kind = ((gp & ~kpre[b]) || (gq & ~kpost[b])) ? ((kpre[b] & ~gp) || (kpost[b] & ~gq) ? "incomparable" : "not-least") : "unsound";
                   vp::viol(std::string("fixpoint:") + kind + (start == 0 ? (mask ? ":assumptions" : ":entry") : ":alt-start"), cs,
-                           show(c) + " block b" + std::to_string(b) + " pre=" + std::to_string(gp) + " post=" + std::to_string(gq) +
+                           show(c) + " (iterator object reused across runs) block b" + std::to_string(b) + " pre=" + std::to_string(gp) + " post=" + std::to_string(gq) +
                                " least pre=" + std::to_string(kpre[b]) + " post=" + std::to_string(kpost[b]));
                   break;
                 }
                 if (kpre[b] != 0 && kpre[b] != 0xffff) any_loop_value = true;
               }
               if (any_loop_value) nontriv.insert(vp::fnv(cs));
-              if (vp::want_sample() && n == 3 && any_loop_value && edges == 0x0a7 /*some loop*/)
+              if (vp::want_sample() && n == 3 && any_loop_value && edges == 0x0a7)
                 vp::sample(show(c) + " => pre(b1)=" + std::to_string(it.get_pre(lbl(1)).bits));
             }
-        }
-      }
+          }
+    }
 }
 
 int main(int argc, char **argv) {
